@@ -13,6 +13,9 @@ CHECKS = {
     "C03": dict(tech="TLC trace validation on toy curves: the verifier's verdict is recomputed from the recorded statement, proof and challenges (combined check, unbatched relations with explicit folding)",
                 text="For every verify call recorded on toy7/toy79/toy31723 (honest, bad-witness and tampered proofs) TLC recomputes the specification's verdict, the residuals Tres and Ires of the unbatched relations and the combined residual, and demands verdict equality, mega = Ires + r*Tres and verdict = relations up to the single colliding r; small groups make a mis-weighted or dropped term visible.",
                 note="toy curves only (exact recomputation needs P^2 < 2^31); the library code is curve-generic, so the same monomorphised logic runs on the real curves; challenge scalars taken as derived by the code (hook H3)", ref="5 C03"),
+    "C05": dict(tech="replay of every single verifier-side statement/context deviation on the real code + TLC trace validation on toy31723 (StatementBinding invariant over the recorded calls of both roles, exact verdict of the deviating statement)",
+                text="For five base statements every single deviation of label, application data (before construction, in phase 1, inside a callback), commitments (value, blinding, extra, missing, reordered), coefficients and constants over committed values, and the two Pedersen bases is run: rejected on the 256-bit curves; on toy31723 TLC rebuilds both statements from the recorded calls and requires equal transcripts, satisfied verifier constraints and agreeing bases whenever the code accepts.",
+                note="single deviations; ideal verdicts on 256-bit curves; toy luck handled by re-running under fresh seeds", ref="5 C05"),
     "C06": dict(tech="TLC trace validation of traced-Merlin operation logs of both roles against the specification's operation schedule (order-preserving embedding), RoleSync invariant",
                 text="Every transcript operation of prover and verifier (label, payload identity, order, challenges, forks, RNG construction) recorded from the real code is matched by TLC against the schedule the specification derives for the statement and proof shape; returned transcripts must drive equal follow-up challenges.",
                 note="payload identity by value on toy curves; extra identical appends tolerated (C18 demands equality)", ref="5 C06"),
@@ -25,6 +28,9 @@ CHECKS = {
     "C08": dict(tech="TLC enumeration of structurally arbitrary proofs (MC_Hostile: TotalVerifier, ShapeGuardExact) + replay of every grid point through from_bytes/verify under catch_unwind + TLC trace validation of the exact verdict on toy31723 + seeded byte mutations with an allocation meter",
                 text="Every (gates, |L|, |R|) grid point and every field forced to identity/zero is built by surgery on an honest proof and verified on all curves; a panic or a verdict other than the specification's is a violation; decoder memory is metered against a linear bound under inflated counts and random mutations.",
                 note="grid gates <= 9 (12), lengths <= 6 (9); catch_unwind instead of the crate's panic=abort; one genuine defect found by this check and repaired (known_findings.json)", ref="5 C08, 6"),
+    "C09": dict(tech="TLC model checking of NonceInjective/BlindingPresent on the reference prover (MC_Hiding) + TLC trace validation: the emitted proof equals the reference prover's output on the recorded RNG stream, RNG construction operations + differential runs on the real curves",
+                text="On toy curves every proof field is recomputed by TLC from the witness, the recorded transcript-RNG stream and the challenges, so each blinding scalar is shown to be its own fresh draw and the draw count is exact; the RNG must be built from a transcript fork, one rekey per commitment blinding and 32 external bytes; on the 256-bit curves proofs under different external seeds share no component outside the statement-fixed ones.",
+                note="draw order of the reference revision is part of the reference prover; shapes n1<=3 (5), n2<=2 (4) in the model", ref="5 C09"),
     "C10": dict(tech="TLC model checking of the inner-product argument (MC_IPP: exhaustive over F_7, sampled at P=31723 for k<=7) + TLC trace validation of create/verify on toy curves + replay of TLC-chosen instance patterns on the real curves",
                 text="Completeness, equivalence with explicit folding, rejection classes and the unrolled-first-round identity are model-checked; every create and verify run on toy curves through the guarded re-export is recomputed by TLC field by field (L, R, a, b, round count, verdict, transcript operations); the same instance patterns run on the 256-bit curves with ideal verdicts.",
                 note="k <= 5 quick / 7 thorough; toy exactness needs P^2 < 2^31; zero challenges on toy curves are degenerate events", ref="5 C10"),
